@@ -111,6 +111,26 @@ def run(ctx):
         ctx.ob('C34-STALE.membership-cache-cleared-on-every-session-exit', cr, cname, ok,
                '' if ok else 'local.%s is not cleared on every exit of _commit_or_rollback (e.g. when commit()/rollback() raises): the next session '
                'on this thread decides permissions with the previous session\'s memberships' % cname)
+    # every place that takes the session off the thread (`local.db_session = None`) clears the caches in the same block -- the generator wrapper
+    # never goes through _commit_or_rollback
+    nends = 0
+    for fn in repo.rule_funcs():
+        if fn.mod.name != CORE: continue
+        for x in ast.walk(fn.node):
+            for fld in ('finalbody',):          # a session scope ends in a finally block; prepare_connection's temporary reset is restored at once
+                blk = getattr(x, fld, None)
+                if not (isinstance(blk, list) and blk and isinstance(blk[0], ast.stmt)): continue
+                ends = [st for st in blk if isinstance(st, ast.Assign) and any(dotted(t) == 'local.db_session' for t in st.targets)
+                        and isinstance(st.value, ast.Constant) and st.value.value is None]
+                if not ends or fn.qual.endswith('__init__'): continue
+                nends += 1
+                cleared = {cname for cname in ('user_groups_cache', 'user_roles_cache') for st in blk
+                           if isinstance(st, ast.Expr) and isinstance(st.value, ast.Call) and dotted(st.value.func) == 'local.%s.clear' % cname}
+                ok = len(cleared) == 2
+                ctx.ob('C34-STALE.leaving-a-session-clears-membership-caches', fn, ends[0], ok,
+                       '' if ok else 'the db_session is taken off the thread here without clearing local.user_groups_cache / local.user_roles_cache (cleared: %s): '
+                       'the next session on this thread decides permissions with memberships cached by this one' % sorted(cleared), node=ends[0])
+    ctx.floor('C34-STALE', nends, 2, 'places where a db_session leaves the thread')
     # the caches live on the thread-local object
     for fq, cname in (('get_user_groups', 'user_groups_cache'), ('get_user_roles', 'user_roles_cache')):
         f = repo.fn(CORE, fq)
@@ -119,6 +139,7 @@ def run(ctx):
 
 
 MUTANTS = [
+    dict(id='C34-g1', file='pony/orm/core.py', fn='DBSessionContextManager._wrap_coroutine_or_generator_function', old="                    local.db_session = None\n                    local.user_groups_cache.clear()\n                    local.user_roles_cache.clear()\n", new="                    local.db_session = None\n", expect='C34-STALE.leaving'),
     dict(id='C34-m1', file='pony/orm/core.py', fn='has_perm', old='                for reverse_rule in reverse_rules:', new='                for reverse_rule in access_rules:', expect='C34-PROV'),
     dict(id='C34-m2', file='pony/orm/core.py', fn='has_perm', old='            if entity in rule.entities_to_exclude: continue', new='            if x in rule.entities_to_exclude: continue', expect='C34-PROV.exclusion'),
     dict(id='C34-m3', file='pony/orm/core.py', fn='has_perm', old="            elif not user_roles.issuperset(rule.roles): pass\n", new='', expect='C34-GRANT'),
